@@ -24,18 +24,19 @@ type SecArg struct {
 }
 
 type c17Case struct {
-	Proto     string
-	Codec     string // json | pb
-	Kind      string // call | push
-	Unknown   bool   // the request is served by the peer's unknown-call / unknown-push handler (it binds the raw body itself)
-	RawResult bool   // the caller receives the reply body as raw bytes (*[]byte result)
-	Secure    bool   // WithSecureMeta on the request
-	Accept    string // "" | "true" | "false"  (WithAcceptSecureMeta)
-	KeyLen    int
-	SameKey   bool
-	ReqMarker string
-	ResMarker string
-	HandlerOK bool
+	Proto      string
+	Codec      string // json | pb
+	Kind       string // call | push
+	Unknown    bool   // the request is served by the peer's unknown-call / unknown-push handler (it binds the raw body itself)
+	RouteLevel bool   // the receiving peer attaches the secure plugin to its routes instead of peer-wide
+	RawResult  bool   // the caller receives the reply body as raw bytes (*[]byte result)
+	Secure     bool   // WithSecureMeta on the request
+	Accept     string // "" | "true" | "false"  (WithAcceptSecureMeta)
+	KeyLen     int
+	SameKey    bool
+	ReqMarker  string
+	ResMarker  string
+	HandlerOK  bool
 }
 
 func genC17(t *rapid.T, protos []vt.NamedProto) c17Case {
@@ -48,18 +49,19 @@ func genC17(t *rapid.T, protos []vt.NamedProto) c17Case {
 		return rapid.StringMatching(`[A-Za-z0-9]{24}`).Draw(t, label)
 	}
 	return c17Case{
-		Proto:     rapid.SampledFrom(protos).Draw(t, "proto").Name,
-		Codec:     rapid.SampledFrom([]string{"json", "pb"}).Draw(t, "codec"),
-		Kind:      rapid.SampledFrom([]string{"call", "call", "call", "push"}).Draw(t, "kind"),
-		Secure:    rapid.Bool().Draw(t, "secure"),
-		Accept:    rapid.SampledFrom([]string{"", "true", "false"}).Draw(t, "accept"),
-		KeyLen:    rapid.SampledFrom([]int{16, 24, 32}).Draw(t, "keylen"),
-		SameKey:   rapid.IntRange(0, 3).Draw(t, "samekey") != 0,
-		ReqMarker: mk("reqmarker"),
-		ResMarker: mk("resmarker"),
-		HandlerOK: rapid.IntRange(0, 4).Draw(t, "handlerok") != 0,
-		Unknown:   rapid.IntRange(0, 3).Draw(t, "unknown") == 0,
-		RawResult: rapid.IntRange(0, 3).Draw(t, "rawresult") == 0,
+		Proto:      rapid.SampledFrom(protos).Draw(t, "proto").Name,
+		Codec:      rapid.SampledFrom([]string{"json", "pb"}).Draw(t, "codec"),
+		Kind:       rapid.SampledFrom([]string{"call", "call", "call", "push"}).Draw(t, "kind"),
+		Secure:     rapid.Bool().Draw(t, "secure"),
+		Accept:     rapid.SampledFrom([]string{"", "true", "false"}).Draw(t, "accept"),
+		KeyLen:     rapid.SampledFrom([]int{16, 24, 32}).Draw(t, "keylen"),
+		SameKey:    rapid.IntRange(0, 3).Draw(t, "samekey") != 0,
+		ReqMarker:  mk("reqmarker"),
+		ResMarker:  mk("resmarker"),
+		HandlerOK:  rapid.IntRange(0, 4).Draw(t, "handlerok") != 0,
+		Unknown:    rapid.IntRange(0, 3).Draw(t, "unknown") == 0,
+		RawResult:  rapid.IntRange(0, 3).Draw(t, "rawresult") == 0,
+		RouteLevel: rapid.IntRange(0, 2).Draw(t, "routelevel") == 0,
 	}
 }
 
@@ -140,11 +142,18 @@ func runC17(c c17Case, protos []vt.NamedProto) []string {
 	const statCode = 9100
 	w := vt.NewWorld()
 	defer w.Close()
-	srv := w.Peer(erpc.PeerConfig{}, secure.NewPlugin(statCode, keyB))
+	// the receiving peer has the plugin peer-wide, or on its routes only (as the plugin's README does)
+	var srvGlobal, routePlug []erpc.Plugin
+	if c.RouteLevel {
+		routePlug = []erpc.Plugin{secure.NewPlugin(statCode, keyB)}
+	} else {
+		srvGlobal = []erpc.Plugin{secure.NewPlugin(statCode, keyB)}
+	}
+	srv := w.Peer(erpc.PeerConfig{}, srvGlobal...)
 	cli := w.Peer(erpc.PeerConfig{}, secure.NewPlugin(statCode, keyA))
 	routes := map[string]string{
-		"call-json": srv.RouteCallFunc(C17Json), "call-pb": srv.RouteCallFunc(C17Pb),
-		"push-json": srv.RoutePushFunc(C17PushJson), "push-pb": srv.RoutePushFunc(C17PushPb),
+		"call-json": srv.RouteCallFunc(C17Json, routePlug...), "call-pb": srv.RouteCallFunc(C17Pb, routePlug...),
+		"push-json": srv.RoutePushFunc(C17PushJson, routePlug...), "push-pb": srv.RoutePushFunc(C17PushPb, routePlug...),
 	}
 	// unknown-call / unknown-push handlers bind the raw body themselves
 	srv.SetUnknownCall(func(ctx erpc.UnknownCallCtx) (interface{}, *erpc.Status) {
@@ -170,7 +179,7 @@ func runC17(c c17Case, protos []vt.NamedProto) []string {
 			return nil, st
 		}
 		return &secure.Encrypt{Ciphertext: r}, nil
-	})
+	}, routePlug...)
 	srv.SetUnknownPush(func(ctx erpc.UnknownPushCtx) *erpc.Status {
 		var marker string
 		if ctx.GetBodyCodec() == 'j' {
@@ -187,7 +196,7 @@ func runC17(c c17Case, protos []vt.NamedProto) []string {
 		c17.gotReq = marker
 		c17.Unlock()
 		return nil
-	})
+	}, routePlug...)
 	l := w.Connect(cli, srv, protoByName(protos, c.Proto), func(p *vt.Pair) {
 		p.SetCapture(vt.AtoB, true)
 		p.SetCapture(vt.BtoA, true)
@@ -339,7 +348,7 @@ func runC17(c c17Case, protos []vt.NamedProto) []string {
 	return fails
 }
 
-const ruleC17 = "both peers run the secure plugin (key length 16/24/32, equal or different keys); one call or push per case with body codec json or protobuf, a 24-character random marker (or, one time in five, an empty one: the protobuf body then marshals to zero bytes) in the argument and another in the result, request marked secure or not, served by a typed handler or by the unknown-call / unknown-push handler (which binds the raw body itself), result received typed or as raw bytes, accept-secure marker absent/true/false, handler succeeding or failing; oracle: with decipherable traffic the handler sees the original argument and the caller the original result; with a different key the handler is not invoked (or the result not delivered) and the status carries the plugin's code; wire capture of both directions: a marker that must be encrypted never occurs (raw, hex, base64), a marker of an unmarked message does occur; the reply of (secure request, accept=false) is not asserted either way; non-trivial = at least one frame must be encrypted; distinct by case"
+const ruleC17 = "both peers run the secure plugin (the receiving one peer-wide or attached to its routes; key length 16/24/32, equal or different keys); one call or push per case with body codec json or protobuf, a 24-character random marker (or, one time in five, an empty one: the protobuf body then marshals to zero bytes) in the argument and another in the result, request marked secure or not, served by a typed handler or by the unknown-call / unknown-push handler (which binds the raw body itself), result received typed or as raw bytes, accept-secure marker absent/true/false, handler succeeding or failing; oracle: with decipherable traffic the handler sees the original argument and the caller the original result; with a different key the handler is not invoked (or the result not delivered) and the status carries the plugin's code; wire capture of both directions: a marker that must be encrypted never occurs (raw, hex, base64), a marker of an unmarked message does occur; the reply of (secure request, accept=false) is not asserted either way; non-trivial = at least one frame must be encrypted; distinct by case"
 
 func TestC17Secure(t *testing.T) {
 	rec := vt.NewRec(t, "C17", "secure", ruleC17)
